@@ -2,7 +2,7 @@
 implementation-level oracle used to search for a concrete failing input."""
 import re
 
-from . import gen_kzg, gen_pc, gen_c16, gen_c13, gen_c08, gen_c09, gen_c14, gen_c15
+from . import gen_kzg, gen_pc, gen_c16, gen_c13, gen_c08, gen_c09, gen_c14, gen_c15, gen_mlpc
 from .gen_common import R_BLS381
 from .oracles import pc_honest, pc_mutations, pc_refusals, pc_hiding, pc_domain, pc_serialization
 
@@ -465,6 +465,65 @@ def oracle_c19(case, lo):
     return fails
 
 
+def oracle_mlpc(case, lo):
+    """multilinear PST on library outputs only"""
+    fails = []
+    if case.kind != "mlpc":
+        return fails
+    nv, snv = int(case.fields["num_vars"][0]), int(case.fields["supported"][0])
+    tag = "MultilinearPC(num_vars=%d, supported=%d)" % (nv, snv)
+    if nv < 1:
+        if lib_s(lo, "setup") == "ok":
+            fails.append("%s: setup served zero variables" % tag)
+        return fails
+    if lib_s(lo, "setup") != "ok":
+        fails.append("%s: setup aborted: %s" % (tag, lib_s(lo, "setup")))
+        return fails
+    if lib_toks(lo, "pp_shape") != [str(nv)] * 4 or lib_toks(lo, "pp_table_lens") != [str(1 << (nv - i)) for i in range(nv)]:
+        fails.append("%s: parameters do not have one table of 2^(n-i) elements per variable (%s / %s)" % (tag, lib_toks(lo, "pp_shape"), lib_toks(lo, "pp_table_lens")))
+    if snv > nv:
+        if lib_s(lo, "trim") == "ok":
+            fails.append("%s: trim served more variables than the parameters have" % tag)
+        return fails
+    if snv < 1:
+        return fails
+    if lib_s(lo, "trim") != "ok":
+        fails.append("%s: trim aborted: %s" % (tag, lib_s(lo, "trim")))
+        return fails
+    if lib_s(lo, "trim_faithful") != "yes":
+        fails.append("%s: trimmed keys are not the corresponding parts of the parameters" % tag)
+    for i in range(int(case.fields["n"][0])):
+        pnv = int(case.fields["pnv.%d" % i][0])
+        zl = len(case.fields.get("z.%d" % i, []))
+        who = "%s polynomial %d (%d variables, point of %d coordinates)" % (tag, i, pnv, zl)
+        if pnv != snv:
+            for step in ("commit", "open"):
+                if lib_s(lo, "%s.%d" % (step, i)) == "ok":
+                    fails.append("%s: %s served a polynomial with another number of variables than the key" % (who, step))
+            continue
+        if lib_s(lo, "commit.%d" % i) != "ok":
+            fails.append("%s: commit aborted: %s" % (who, lib_s(lo, "commit.%d" % i)))
+            continue
+        for tg in ("c", "u"):
+            a, b = lib_s(lo, "size.comm.%d.%s" % (i, tg)), lib_s(lo, "bytes.comm.%d.%s" % (i, tg))
+            if a != b:
+                fails.append("%s: serialized_size of the commitment %s != bytes written %s" % (who, a, b))
+        if lib_s(lo, "size.comm.%d.c" % i) != str(8 + 48):
+            fails.append("%s: commitment of %s bytes, expected a counter and one G1 element" % (who, lib_s(lo, "size.comm.%d.c" % i)))
+        if zl < snv:
+            continue
+        if lib_s(lo, "open.%d" % i) != "ok":
+            fails.append("%s: open aborted: %s" % (who, lib_s(lo, "open.%d" % i)))
+            continue
+        if lib_s(lo, "size.proof.%d.c" % i) != str(8 + snv * 96):
+            fails.append("%s: proof of %s bytes, expected one G2 element per variable" % (who, lib_s(lo, "size.proof.%d.c" % i)))
+        if lib_s(lo, "check.%d" % i) != "accept":
+            fails.append("%s: honest proof for the true value -> %s" % (who, lib_s(lo, "check.%d" % i)))
+        if lib_s(lo, "check_bad.%d" % i) == "accept":
+            fails.append("%s: value + delta accepted with the honest proof" % who)
+    return fails
+
+
 def lib_toks(lo, name):
     v = lo.get(name)
     return v[1] if v else None
@@ -497,9 +556,9 @@ def oracle_c16(case, lo):
 PROPS = {
     "C01": {
         "props_file": "props/C01.v",
-        "flows": [(gen_kzg.gen, "c01", 60, 600), (gen_pc.gen, "c01", 96, 960)],
+        "flows": [(gen_kzg.gen, "c01", 60, 600), (gen_pc.gen, "c01", 96, 960), (gen_mlpc.gen, "c01", 16, 160)],
         "filter": None,
-        "oracles": [oracle_c01_kzg, pc_honest, lambda c, lo: pc_mutations(c, lo, ("vperm",))],
+        "oracles": [oracle_c01_kzg, pc_honest, oracle_mlpc, lambda c, lo: pc_mutations(c, lo, ("vperm",))],
         "title": "Completeness",
     },
     "C16": {
@@ -511,15 +570,15 @@ PROPS = {
     },
     "C02": {
         "props_file": "props/C02.v",
-        "flows": [(gen_kzg.gen, "c02", 60, 600), (gen_pc.gen, "c02", 160, 1600)],
-        "oracles": [oracle_kzg_muts, oracle_kzg_batches, lambda c, lo: pc_mutations(c, lo, ("value", "comm_swap", "cancel"))],
+        "flows": [(gen_kzg.gen, "c02", 60, 600), (gen_pc.gen, "c02", 160, 1600), (gen_mlpc.gen, "c02", 16, 160)],
+        "oracles": [oracle_kzg_muts, oracle_kzg_batches, oracle_mlpc, lambda c, lo: pc_mutations(c, lo, ("value", "comm_swap", "cancel"))],
         "accept_diffs": ("mut.", "batch."),
         "title": "Evaluation binding (honest proof, false claim)",
     },
     "C03": {
         "props_file": "props/C03.v",
-        "flows": [(gen_kzg.gen, "c03", 40, 400), (gen_pc.gen, "c03", 160, 1600)],
-        "oracles": [lambda c, lo: pc_mutations(c, lo, ("proofs", "proof_mut", "proof_mut_v", "attack"))],
+        "flows": [(gen_kzg.gen, "c03", 40, 400), (gen_pc.gen, "c03", 160, 1600), (gen_mlpc.gen, "c03", 16, 160)],
+        "oracles": [oracle_mlpc, lambda c, lo: pc_mutations(c, lo, ("proofs", "proof_mut", "proof_mut_v", "attack"))],
         "accept_diffs": ("mut.",),
         "title": "Evaluation binding (crafted proofs)",
     },
@@ -579,15 +638,16 @@ PROPS = {
     },
     "C17": {
         "props_file": "props/C17.v",
-        "flows": [(gen_kzg.gen, "c17", 60, 600), (gen_pc.gen, "c17", 120, 1200), (gen_pc.gen, "c17domain", 60, 600), (gen_pc.gen, "c01", 40, 400)],
-        "oracles": [oracle_c17_kzg, oracle_c01_kzg, pc_honest, pc_refusals, pc_domain, lambda c, lo: pc_mutations(c, lo, ("drop_eval", "drop_comm"))],
+        "flows": [(gen_kzg.gen, "c17", 60, 600), (gen_pc.gen, "c17", 120, 1200), (gen_pc.gen, "c17domain", 60, 600), (gen_pc.gen, "c01", 40, 400),
+                  (gen_mlpc.gen, "c17", 24, 240)],
+        "oracles": [oracle_c17_kzg, oracle_c01_kzg, pc_honest, pc_refusals, pc_domain, oracle_mlpc, lambda c, lo: pc_mutations(c, lo, ("drop_eval", "drop_comm"))],
         "accept_diffs": ("mut.",),
         "title": "Out-of-domain requests are refused",
     },
     "C09": {
         "props_file": "props/C09.v",
-        "flows": [(gen_c09.gen, "c09", 90, 900), (gen_pc.gen, "c17domain", 30, 300), (gen_c15.gen_setup, "c09", 16, 200)],
-        "oracles": [oracle_c09, oracle_c15, pc_honest, pc_domain],
+        "flows": [(gen_c09.gen, "c09", 90, 900), (gen_pc.gen, "c17domain", 30, 300), (gen_c15.gen_setup, "c09", 16, 200), (gen_mlpc.gen, "c09", 12, 120)],
+        "oracles": [oracle_c09, oracle_c15, oracle_mlpc, pc_honest, pc_domain],
         "title": "Setup and trim",
     },
     "C18": {
@@ -605,8 +665,8 @@ PROPS = {
     },
     "C19": {
         "props_file": "props/C19.v",
-        "flows": [(gen_pc.gen, "c19", 48, 480)],
-        "oracles": [pc_honest, oracle_c19],
+        "flows": [(gen_pc.gen, "c19", 48, 480), (gen_mlpc.gen, "c19", 10, 100)],
+        "oracles": [pc_honest, oracle_c19, oracle_mlpc],
         "filter": _names("size", "bytes", "shape"),
         "comparators": {"size": cmp_size, "bytes": cmp_size},
         "title": "Succinctness",
